@@ -983,15 +983,17 @@ func c14ObjSuffix(c *Ctx) {
 	if pd := c.fn("R14.C", load.ParsePkg, "", "parseDefinition"); pd != nil {
 		n := 0
 		var bad []string
+		// every place where the "excluded" error is made (it is returned from there, directly or through a result
+		// variable of a helper that was inlined)
+		var made []ssa.Instruction
 		for _, b := range pd.Blocks {
-			ret, ok := an.AsReturn(b.Instrs[len(b.Instrs)-1])
-			if !ok || len(ret.Results) != 2 {
-				continue
+			for _, in := range b.Instrs {
+				if mi, ok := in.(*ssa.MakeInterface); ok && strings.HasSuffix(mi.X.Type().String(), "errExcluded") {
+					made = append(made, mi)
+				}
 			}
-			mi, ok := an.RetVal(ret, 1).(*ssa.MakeInterface)
-			if !ok || !strings.HasSuffix(mi.X.Type().String(), "errExcluded") {
-				continue
-			}
+		}
+		for _, ret := range made {
 			n++
 			guarded := an.DominatingGuard(pd, ret, func(cd *an.Cond) int {
 				ex, ok := cd.X.(*ssa.Extract)
